@@ -19,7 +19,7 @@ PID = 'C18'
 HEADER = '''From Coq Require Import ZArith QArith List String Bool.
 Import ListNotations.
 From FV.C11 Require Import Model Entry Check.
-From FV.C18 Require Import Model Check.
+From FV.C18 Require Import Model Check SlotBase SlotModel.
 From FV.C18.gen Require Import Tables.
 From FV.C11.gen Require Import Kernels.
 Open Scope string_scope. Open Scope Q_scope.
@@ -111,9 +111,15 @@ def ascending(xs):
 
 
 # --------------------------------------------------------------- to_polyhedron
+def big(ctx, op):
+    """thorough-size streams: thorough tier, or the translator could not read a region this
+    operation depends on (tie degraded from T to H: baseline model + widened correspondence)"""
+    return ctx.tier != 'quick' or bool(ctx.notes.get('widened', {}).get(op))
+
+
 def poly_meshes(ctx):
     rng = ctx.rng
-    n = 2 if ctx.tier == 'quick' else 10
+    n = 10 if big(ctx, 'poly') else 2
     out = []
     kind_sets = [['tet'], ['pyr'], ['prism'], ['hex'], ['hex', 'prism', 'pyr', 'tet'], ['pyr', 'tet']]
     for rep in range(n):
@@ -328,14 +334,14 @@ def degen_mesh(rng, opts, with_prisms, bad_pattern=False, others=()):
 
 def check_degeneracy(ctx, model_ok):
     rng = ctx.rng
-    n = 12 if ctx.tier == 'quick' else 80
+    n = 80 if big(ctx, 'degen') else 12
     meshes = []
     for k in range(n):
         o = G.random_opts(rng)
         o['shuffle_elems'] = rng.random() < 0.5
         meshes.append(degen_mesh(rng, o, with_prisms=k % 2 == 0, bad_pattern=(k % 6 == 5)))
     # mixed meshes: hex (some degenerate) + tet + pyramid (+ prism): other types must survive
-    for k in range(4 if ctx.tier == 'quick' else 20):
+    for k in range(20 if big(ctx, 'degen') else 4):
         o = G.random_opts(rng)
         o['shuffle_elems'] = k % 2 == 1
         m = degen_mesh(rng, o, with_prisms=k % 2 == 0, others=[('tet', 'pyr'), ('tet',), ('pyr',)][k % 3])
@@ -478,13 +484,16 @@ def check_degeneracy(ctx, model_ok):
 
 
 # -------------------------------------------------------- make_elements_positive
+SCALES = [1.0, 2.0 ** -10, 1.0, 1e-3, 1024.0]
+
+
 def check_positive(ctx, model_ok):
     rng = ctx.rng
     meshes = []
     base_opts = G.random_opts(rng, jitter_ok=False)
     base_opts['matrix'] = G.MATRICES[0]
     subsets = list(itertools.product([0, 1], repeat=6))
-    if ctx.tier == 'quick':
+    if not big(ctx, 'positive'):
         subsets = [subsets[0], subsets[-1]] + rng.sample(subsets[1:-1], 14)
     for sub in subsets:
         o = dict(G.random_opts(rng, jitter_ok=False))
@@ -497,7 +506,7 @@ def check_positive(ctx, model_ok):
                 c[1], c[2] = c[2], c[1]
         m['meta']['inverted'] = list(sub)
         meshes.append(m)
-    for k in range(4 if ctx.tier == 'quick' else 30):
+    for k in range(30 if big(ctx, 'positive') else 4):
         o = G.random_opts(rng)
         m = G.solid_mesh(rng, ['tet'], o)
         inv = []
@@ -509,12 +518,19 @@ def check_positive(ctx, model_ok):
                 c[j], c[l] = c[l], c[j]
         m['meta']['inverted'] = inv
         meshes.append(m)
+    # length scale: volumes far below / above 1 (a sign test must not carry an absolute tolerance)
+    for k, m in enumerate(meshes):
+        sc = SCALES[k % len(SCALES)] if k >= 2 else 1.0
+        m['meta']['scale'] = sc
+        if sc != 1.0:
+            m['coords'] = [[float(x) * sc for x in c] for c in m['coords']]
     tasks = [{'id': i, 'kind': 'positive', 'mesh': mesh_of(m)} for i, m in enumerate(meshes)]
     res = run_impl(ctx, tasks, 'positive')
     items, n_bad = [], 0
     for i, m in enumerate(meshes):
         r = res[i]
         ctx.count('positive:inverted tets:%d' % min(sum(m['meta']['inverted']), 6))
+        ctx.count('positive:length scale:%g' % m['meta']['scale'])
         ctx.case(['positive', m['node_ids'], m['coords'], m['blocks']],
                  sample={'op': 'make_elements_positive', 'inverted': m['meta']['inverted'],
                          'before': r.get('before', {}).get('values', [])[:3]})
@@ -532,6 +548,7 @@ def check_positive(ctx, model_ok):
         items.append((i, f'positive_ok permute_tet {rows} {rows_lit(ab[1], ab[2])}'))
         problems = []
         before = dict(zip(r['before']['ids'], map(hexq, r['before']['values'])))
+        vscale = max([abs(v) for v in before.values()] + [0])
         if r.get('default_metrics_raises'):
             problems.append('after_same_object: calculate_element_metrics() still raises (negative element)')
         if 'second_error' in r:
@@ -548,7 +565,7 @@ def check_positive(ctx, model_ok):
             after = dict(zip(r[key]['ids'], map(hexq, r[key]['values'])))
             for e, v in before.items():
                 if after.get(e) is None or after[e] < 0 or \
-                        abs(after[e] - abs(v)) > Fraction(1, 2 ** 30) * max(1, abs(v)):
+                        abs(after[e] - abs(v)) > Fraction(1, 2 ** 30) * vscale:
                     problems.append(f'{key}: element {e}: volume {float(v)} -> {after.get(e) and float(after[e])}')
         for e, c, c2 in zip(b[1], b[2], ab[2]):
             if sorted(c) != sorted(c2):
@@ -586,6 +603,184 @@ def check_positive(ctx, model_ok):
     return len(meshes), len(bad)
 
 
+
+# ------------------------------------------ histories on one object (memo slots)
+METRIC_QUERIES = [('metric', rz, ab) for rz in (False, True) for ab in (False, True)]
+VOLUME_QUERIES = [('volume', mode, rz, ab) for mode in ('centroid', 'linear', 'gaussian')
+                  for rz in (False, True) for ab in (False, True)]
+QUERIES = METRIC_QUERIES + VOLUME_QUERIES
+
+
+def exact_tet_volume(pos, conn):
+    p = [[Fraction(x) for x in pos[c]] for c in conn]
+    a, b, c = ([p[k][j] - p[0][j] for j in range(3)] for k in (1, 2, 3))
+    return (a[0] * (b[1] * c[2] - b[2] * c[1]) - a[1] * (b[0] * c[2] - b[2] * c[0])
+            + a[2] * (b[0] * c[1] - b[1] * c[0])) / 6
+
+
+def op_coq(op):
+    b = lambda x: 'true' if x else 'false'   # noqa
+    if op[0] == 'metric':
+        return f'QMetric {b(op[1])} {b(op[2])}'
+    if op[0] == 'volume':
+        return f'QVolume {lib.coq_str(op[1])} {b(op[2])} {b(op[3])}'
+    return 'MakePositive'
+
+
+def history_mesh(rng, cube, k):
+    o = dict(G.random_opts(rng, jitter_ok=False))
+    if cube:
+        o['matrix'] = rng.choice([x for x in G.MATRICES if G.det3(x[1]) > 0])
+        m = G.solid_mesh(rng, ['tet'], o, dims=(1, 1, 1))
+    else:
+        m = G.solid_mesh(rng, ['tet'], o)
+    rows = m['blocks'][0][2]
+    inv = [int(rng.random() < 0.45) for _ in rows]
+    if not any(inv) and k % 5 != 4:
+        inv[rng.randrange(len(inv))] = 1
+    for c, f in zip(rows, inv):
+        if f:
+            j, l = rng.sample(range(4), 2)
+            c[j], c[l] = c[l], c[j]
+    m['meta']['inverted'] = inv
+    sc = SCALES[k % len(SCALES)]
+    m['meta']['scale'] = sc
+    if sc != 1.0:
+        m['coords'] = [[float(x) * sc for x in c] for c in m['coords']]
+    return m
+
+
+def check_history(ctx, model_ok):
+    """queries with every option combination before / between / after
+    make_elements_positive on ONE object: (a) model-free oracle: every answer is what
+    the current connectivity gives for the requested options, every repair leaves ids
+    and node sets alone and all volumes non-negative with the same absolute value;
+    (b) the SlotModel state machine (translated _slot_answers) is run in Coq on the same
+    history and compared step by step"""
+    rng = ctx.rng
+    wide = big(ctx, 'positive')
+    hist = []
+    for q in QUERIES:                                   # every single query before the repair
+        hist.append([q, ('positive',), ('volume', 'linear', False, False), ('metric', True, False)])
+    pairs = [(a, b) for a in QUERIES for b in QUERIES if a != b]
+    for a, b in (pairs if wide else rng.sample(pairs, 16)):
+        hist.append([a, b, ('positive',), rng.choice(QUERIES)])
+    for _ in range(100 if wide else 12):
+        h = [rng.choice(QUERIES + [('positive',)]) for _ in range(rng.randint(1, 6))]
+        hist.append(h + [('positive',), rng.choice(QUERIES)])
+    cases = [(history_mesh(rng, k % 3 != 2, k), h) for k, h in enumerate(hist)]
+    for f in sorted((lib.VERIF / 'corpus' / PID).glob('history_*.json')):
+        c = json.loads(f.read_text())
+        cases.insert(0, (c['mesh'], [tuple(x) for x in c['ops']]))
+    tasks = [{'id': i, 'kind': 'history', 'mesh': mesh_of(m), 'ops': [list(o) for o in h]}
+             for i, (m, h) in enumerate(cases)]
+    res = run_impl(ctx, tasks, 'history')
+    defs, items, n_bad = [], [], 0
+    for i, (m, h) in enumerate(cases):
+        r = res[i]
+        b = m['blocks'][0]
+        inverted = m.get('meta', {}).get('inverted')
+        ctx.count('history:length:%d' % len(h))
+        ctx.count('history:queries before the first repair:%d' % min(
+            3, next(k for k, o in enumerate(h) if o[0] == 'positive')))
+        for o in h[:next(k for k, o in enumerate(h) if o[0] == 'positive')]:
+            ctx.count('history:before repair:' + ('%s raise=%s abs=%s' % (o[0], o[-2], o[-1])))
+        ctx.case(['history', m['node_ids'], m['coords'], m['blocks'], [list(o) for o in h]],
+                 sample={'op': 'history', 'ops': [list(o) for o in h], 'inverted': inverted,
+                         'steps': [('values' if 'values' in st else 'raise' if 'raise' in st else 'done')
+                                   for st in r.get('steps', [])]})
+        case = {'op': 'history', 'mesh': mesh_of(m), 'ops': [list(o) for o in h], 'inverted': inverted}
+        if 'steps' not in r or len(r['steps']) != len(h):
+            n_bad += 1
+            ctx.violation('correspondence', case, 'runs', {k: r.get(k) for k in ('crash', 'tb')},
+                          'correspondence C18 history', found_input=True, signature={'kind': 'history-crash'})
+            continue
+        # ---- model-free oracle
+        pos = dict(zip(m['node_ids'], m['coords']))
+        rows = [list(c) for c in b[2]]
+        ids = list(b[1])
+        vscale = max(abs(exact_tet_volume(pos, c)) for c in rows)
+        problems, coq_steps = [], []
+        for k, (o, st) in enumerate(zip(h, r['steps'])):
+            tag = f'step {k} {list(o)}'
+            signed = [exact_tet_volume(pos, c) for c in rows]
+            if o[0] == 'positive':
+                if 'done' not in st:
+                    problems.append(f'{tag}: make_elements_positive raised {st.get("raise")}')
+                    coq_steps.append('IRaised')
+                    continue
+                nb = st['done'][0]
+                coq_steps.append(f'IDone {rows_lit(nb[1], nb[2])}')
+                if nb[1] != ids or len(st['done']) != 1 or nb[0] != 'tet':
+                    problems.append(f'{tag}: element ids / type changed')
+                    break
+                for e, c, c2, v in zip(ids, rows, nb[2], signed):
+                    if sorted(c) != sorted(c2):
+                        problems.append(f'{tag}: element {e}: nodes {c} -> {c2}')
+                    else:
+                        v2 = exact_tet_volume(pos, c2)
+                        if v2 < 0:
+                            problems.append(f'{tag}: element {e} still inverted: volume {float(v)} -> {float(v2)}')
+                        elif v2 != abs(v):
+                            problems.append(f'{tag}: element {e}: |volume| {float(abs(v))} -> {float(v2)}')
+                rows = [list(c) for c in nb[2]]
+                continue
+            rz, ab = o[-2], o[-1]
+            want_raise = rz and any(v < 0 for v in signed)
+            if 'values' in st:
+                got = [hexq(x) for x in st['values']]
+                coq_steps.append('IValues ' + lib.coq_list([qf(x) for x in got]))
+                if want_raise:
+                    problems.append(f'{tag}: answered although an element is inverted and raise was asked')
+                want = [abs(v) for v in signed] if ab else signed
+                for e, a, w in zip(ids, got, want):
+                    if abs(a - w) > Fraction(1, 2 ** 30) * vscale:
+                        problems.append(f'{tag}: element {e}: answered {float(a)}, the mesh gives {float(w)}')
+            else:
+                coq_steps.append('IRaised')
+                if not want_raise:
+                    problems.append(f'{tag}: raised {st.get("raise")}: {st.get("msg")}')
+        ctx.notes['oracle_evaluations'] = ctx.notes.get('oracle_evaluations', 0) + len(h) * len(ids)
+        if problems:
+            n_bad += 1
+            first_pos = next(k for k, o in enumerate(h) if o[0] == 'positive')
+            ctx.violation('impl-violation', case,
+                          'every answer = what the current connectivity gives; after a repair all volumes >= 0, '
+                          'same ids, node sets and |volume|', problems[:6],
+                          'C18_positive_after_any_history / C18_queries_answer_fresh (oracle on implementation)',
+                          found_input=True,
+                          signature={'kind': 'history',
+                                     'problem': re.sub(r'-?\d[\d.e+-]*', '#', problems[0].split(']: ', 1)[-1])[:60],
+                                     'before_repair': [list(o) for o in h[:first_pos]][:2]},
+                          what='history on one object: ' + problems[0])
+        if len(coq_steps) == len(h):
+            defs.append(f'Definition hn_{i} : list Z := {zlist(m["node_ids"])}.')
+            defs.append(f'Definition hc_{i} : list (v3 Q) := ' +
+                        lib.coq_list(['(' + ', '.join(qf(Fraction(x)) for x in c) + ')' for c in m['coords']]) + '.')
+            steps = lib.coq_list([f'({op_coq(o)}, {st})' for o, st in zip(h, coq_steps)])
+            items.append((i, f'history_ok (1#1073741824) (q_sv hn_{i} hc_{i}) (fresh {rows_lit(b[1], b[2])}) {steps}'))
+    bad = []
+    if model_ok and items:
+        out = coq_cases(ctx, 'HistoryCases', defs, {'corr': items})
+        if out is None:
+            ctx.violation('tie-broken', {'stage': 'HistoryCases.v'}, 'case file compiles', 'does not',
+                          'correspondence C18 history', found_input=False,
+                          signature={'kind': 'case-file', 'file': 'HistoryCases'})
+            bad = [i for i, _ in items]
+        else:
+            bad = out['corr']
+    for i in bad[:20]:
+        m, h = cases[i]
+        ctx.violation('correspondence', {'op': 'history', 'mesh': mesh_of(m), 'ops': [list(o) for o in h]},
+                      'every step equal to the SlotModel state machine (translated _slot_answers)',
+                      res[i].get('steps'), 'correspondence C18 history (SlotModel.step)', found_input=True,
+                      signature={'kind': 'history-correspondence',
+                                 'first': [list(o) for o in h][:2]},
+                      what='history on one object differs from the model')
+    ctx.notes['history'] = {'histories': len(cases), 'model_disagreements': len(bad), 'oracle_failures': n_bad}
+    return len(cases), len(bad)
+
+
 # ------------------------------------------------------------------------ main
 def main(ctx):
     ctx.rule = ('to_polyhedron: lattice meshes of tet / pyramid / prism / hex cells and mixes under '
@@ -593,9 +788,13 @@ def main(ctx):
                 'int32 and shuffled node storage; resolve_degeneracy: rows of hex cells with each of the '
                 'four edge collapses, plain hexes, existing prism blocks, broken companions; '
                 'make_elements_positive: every/sampled subset of inverted tets of a 6-tet cube and random '
-                'tet meshes; a case = one mesh x one operation; all non-trivial')
+                'tet meshes, lengths scaled by 2^-10 / 1e-3 / 1024; histories on one object: every metric / '
+                'volume query (mode x raise x abs) before the repair, ordered pairs of queries, random '
+                'sequences of queries and repairs; a case = one mesh x one operation (or one history); '
+                'all non-trivial')
     ctx.trusted += [
-        'translator /verif/translate/c18_tables.py (fail-closed, text-exact on the non-table parts) and '
+        'translator /verif/translate/c18_tables.py (per region: translated, or baseline model + widened '
+        'correspondence when the region cannot be read) and '
         '/verif/translate/c11_kernels.py for the volume kernels',
         'hand model coq/C18/Model.v (searchsorted / argsort / face_dat layout / resolve_degeneracy '
         'control flow / make_positive), pinned by the correspondence',
@@ -604,22 +803,37 @@ def main(ctx):
     ctx.assumptions += [
         'numpy.argsort / searchsorted on distinct ids; numba kernels modelled from their source text',
         'rounding and float32 accumulators modelled as exact (C11)',
-        'volumes are evaluated on fresh FEMData objects (memo slots belong to C19)',
+        'to_polyhedron / resolve_degeneracy: volumes are evaluated on fresh FEMData objects (memo slots: C19); '
+        'make_elements_positive: the metric / volume slots it relies on are modelled (SlotModel.v) for objects '
+        'without user-supplied elemental variables named metric / volume',
     ]
     tie_ok = True
+    degraded = {}
     try:
         model, consumed = c18_tables.translate(str(lib.REPO))
         ctx.sources = consumed
+        degraded = model['degraded']
         lib.write_if_changed(lib.COQ / 'C18' / 'gen' / 'Tables.v', c18_tables.emit(model))
+        lib.write_if_changed(lib.COQ / 'C18' / 'gen' / 'Slots.v', c18_tables.emit_slots(model))
         kmodel, kconsumed = c11_kernels.translate(str(lib.REPO))
         ctx.sources.update({'C11:' + k: v for k, v in kconsumed.items()})
         lib.write_if_changed(lib.COQ / 'C11' / 'gen' / 'Kernels.v', c11_kernels.emit(kmodel))
         ctx.notes['translated_flags'] = {ty: {'uses_argsort': k['uses_argsort'], 'casts_int32': k['int32']}
                                          for ty, k in model['kernels'].items()}
+        ctx.notes['translated_slot_decision'] = model['slots']['answers']['expr']
     except (c18_tables.TranslateError, c11_kernels.TranslateError, SyntaxError) as e:
         tie_ok = False
         ctx.log('translator failed closed:', e)
         ctx.notes['translator_error'] = str(e)
+    # regions the translator could not read: baseline model (translation of the registered
+    # tree) + widened correspondence for the operations that depend on them
+    ctx.notes['widened'] = {
+        'poly': sorted(k for k in degraded if k.endswith('to_polyhedron')),
+        'degen': sorted(k for k in degraded if k == 'resolve_degeneracy'),
+        'positive': sorted(k for k in degraded if k in ('_permute', 'make_elements_positive', 'slots'))}
+    if degraded:
+        ctx.log('translator could not read:', degraded)
+        ctx.notes['translator_degraded'] = degraded
     proof_ok = False
     if tie_ok:
         proof_ok, log = ctx.build_props('C18/Props.v', extra_targets=['C18/Check.vo', 'C11/Check.vo'])
@@ -637,7 +851,13 @@ def main(ctx):
     n1, b1 = check_polyhedron(ctx, model_ok)
     n2, b2 = check_degeneracy(ctx, model_ok)
     n3, b3 = check_positive(ctx, model_ok)
-    ctx.corr = {'cases': n1 + n2 + n3, 'disagreements': b1 + b2 + b3}
+    n4, b4 = check_history(ctx, model_ok)
+    ctx.corr = {'cases': n1 + n2 + n3 + n4, 'disagreements': b1 + b2 + b3 + b4}
+    if degraded and tie_ok:
+        ctx.notes['tie'] = 'H (translator could not read %s; baseline model + widened correspondence, %d cases)' % (
+            '; '.join(f'{k}: {v}' for k, v in sorted(degraded.items())), n1 + n2 + n3 + n4)
+    elif tie_ok:
+        ctx.notes['tie'] = 'T (all regions translated) + H (correspondence, %d cases)' % (n1 + n2 + n3 + n4)
     ctx.notes['search_evaluations'] = ctx.notes.get('oracle_evaluations', 0)
     found_any = len(ctx.violations) > before or ctx.known
     if not tie_ok and not found_any:
@@ -666,6 +886,21 @@ def replay(path):
     op = c.get('op')
     kind = {'to_polyhedron': 'poly', 'resolve_degeneracy': 'degen', 'make_elements_positive': 'positive',
             'polyhedron volume': 'poly'}.get(op)
+    if op == 'history' and 'mesh' in c:
+        r = run_impl(ctx, [{'id': 0, 'kind': 'history', 'mesh': c['mesh'], 'ops': c['ops']}], 'replay')[0]
+        pos = dict(zip(c['mesh']['node_ids'], c['mesh']['coords']))
+        rows = r.get('final_blocks', [[None, [], []]])[0]
+        vols = [exact_tet_volume(pos, row) for row in rows[2]]
+        print('ops:', c['ops'])
+        print('steps:', json.dumps(r.get('steps'))[:2000])
+        print('expected:', rp['expected'])
+        print('observed before:', rp['observed'])
+        ok = 'steps' in r and all(v >= 0 for v in vols) and all('raise' not in st for o, st in zip(
+            c['ops'], r['steps']) if o[0] == 'positive')
+        print('signed volumes of the final connectivity:', [float(v) for v in vols])
+        print('property', 'holds (final connectivity has no inverted element)' if ok else 'VIOLATED',
+              'on this input')
+        return 0 if ok else 1
     if kind is None or 'mesh' not in c:
         print('nothing to replay on the implementation:', json.dumps(rp, indent=1)[:2000])
         return 1
